@@ -32,6 +32,7 @@ func serveTunnel(stream tunnelStreamServer, tunnelMetadata metadata.MD, clientAc
 		streams:               map[int64]*tunnelServerStream{},
 		lastSeen:              -1,
 	}
+	defer verifTrackServer(svr)()
 	return svr.serve(tunnelMetadata)
 }
 
@@ -604,6 +605,7 @@ func (st *tunnelServerStream) serveStream(md interface{}, srv interface{}) {
 
 func (st *tunnelServerStream) finishStream(err error) {
 	st.cancel()
+	verifYield("server.finish.afterCancel")
 	st.svr.removeStream(st.streamID)
 	st.halfClose(err)
 
@@ -663,6 +665,7 @@ func (st *tunnelServerStream) halfClose(err error) {
 		// already closed
 		return
 	}
+	verifYield("server.halfClose.beforeReceiverClose")
 	st.receiver.close()
 }
 
